@@ -66,6 +66,10 @@ type c05case struct {
 	// conditions read (the other branch writes nothing). seq2 = 1: the writing branch is listed first, 2: second;
 	// `order` 0 / 1: the writer is answered first / last.
 	seq2 int
+	// errthen: the fork is reached TWICE by tokens of different origin (two start events): the first finds no true condition
+	// and no default (the error outcome, its token stays there), the second — after a task has set the variable — finds the
+	// condition true and must be routed as if it were the first
+	errthen bool
 }
 
 func c05cases(tier string) []c05case {
@@ -116,6 +120,7 @@ func c05cases(tier string) []c05case {
 			}
 		}
 	}
+	cs = append(cs, c05case{c: 1, defPos: -1, truth: 0, early: -1, errthen: true})
 	for seq2 := 1; seq2 <= 2; seq2++ {
 		for o := 0; o < 2; o++ {
 			cs = append(cs, c05case{c: 2, defPos: -1, truth: 3, early: -1, order: o, seq2: seq2})
@@ -213,7 +218,85 @@ func c05runSeq2(out *rec.Out, c c05case, rng *rec.Rng, stats map[string]int) {
 	in.Stop(2 * timeSecond)
 }
 
+// c05runErrThen: s1 -> A1 -> M ; s2 -> A2 (stores ready) -> M ; M (exclusive merge) -> I ; I -(ready == 1)-> B0 [, I -(ready == 2)-> B1] -> J -> Z -> end
+func c05runErrThen(out *rec.Out, c c05case, rng *rec.Rng, stats map[string]int) {
+	g := eng.NewGraph()
+	s1 := g.Add("startEvent", "start", "")
+	s2 := g.Add("startEvent", "start2", "")
+	a1 := g.Add("task", "A1", "")
+	a2 := g.Add("task", "A2", "")
+	a2.Results = []string{"ready"}
+	fork := g.Add("inclusiveGateway", "I", "")
+	join := g.Add("inclusiveGateway", "J", "")
+	z := g.Add("task", "Z", "")
+	en := g.Add("endEvent", "end", "")
+	g.Connect(s1, a1, nil)
+	g.Connect(s2, a2, nil)
+	// (an exclusive merge in front of the fork: the fork has ONE incoming flow, it does not synchronise anything)
+	mg := g.Add("exclusiveGateway", "M", "")
+	g.Connect(a1, mg, nil)
+	g.Connect(a2, mg, nil)
+	g.Connect(mg, fork, nil)
+	for j := 0; j < c.c; j++ {
+		b := g.Add("task", fmt.Sprintf("B%d", j), "")
+		g.Connect(fork, b, &eng.Cond{Op: "eq", Var: "ready", K: j + 1})
+		g.Connect(b, join, nil)
+	}
+	g.Connect(join, z, nil)
+	g.Connect(z, en, nil)
+	out.Begin("c05", c.c, c.defPos, c.truth, c.early, c.order, 0, 0, 0, 1)
+	defer out.End()
+	vars := map[string]int{"ready": 0}
+	in, defs, err := eng.Start(g.XML(), map[string]any{"ready": 0})
+	if err != nil {
+		out.Line("harness-error %v", err)
+		return
+	}
+	for _, l := range eng.ProgLines(&(*defs.Processes())[0], g.CondRPN) {
+		out.Line("prog %s", l)
+	}
+	out.Line("prog vars %s", fmtVars(vars))
+	stats["cases"]++
+	stats["fork_reached_again_after_an_error_outcome"]++
+	answer := func(node string, res map[string]int) bool {
+		if !in.Quiesce(4 * timeSecond) {
+			in.Note("obs noquiesce")
+			return false
+		}
+		for _, q := range in.Pending() {
+			if q.Node == node {
+				return in.AnswerOK(q, res)
+			}
+		}
+		return false
+	}
+	answer("A1", nil)                         // the first token finds nothing to take
+	answer("A2", map[string]int{"ready": 1}) // the second one finds `ready == 1` true
+	for steps := 0; steps < 4; steps++ {
+		if !in.Quiesce(4 * timeSecond) {
+			in.Note("obs noquiesce")
+			break
+		}
+		rest := in.Pending()
+		if len(rest) == 0 {
+			break
+		}
+		in.AnswerOK(rest[0], nil)
+	}
+	complete := in.WaitComplete(300 * timeMillisecond)
+	in.Quiesce(2 * timeSecond)
+	for _, l := range in.Lines() {
+		out.Line("%s", l)
+	}
+	out.Line("obs final complete=%d vars=%s", rec.B(complete), in.Vars())
+	in.Stop(2 * timeSecond)
+}
+
 func c05run(out *rec.Out, c c05case, rng *rec.Rng, stats map[string]int) {
+	if c.errthen {
+		c05runErrThen(out, c, rng, stats)
+		return
+	}
 	if c.seq2 > 0 {
 		c05runSeq2(out, c, rng, stats)
 		return
